@@ -108,6 +108,8 @@ impl EventGen for LoopElement {
                 if let LoopType::Until(expr) = &loop_def.loop_type {
                     if eval_condition(expr, context)? {
                         // the pass just completed counts towards the limit too
+                        #[cfg(feature = "verif")]
+                        crate::verif::iteration("loop", iteration + 1, context.config.loop_limit);
                         if iteration + 1 > context.config.loop_limit {
                             return Err(SvgdxError::LoopLimitError(
                                 iteration + 1,
